@@ -2000,6 +2000,9 @@ func (g *gen) failingPiece() {
 		{"env-of-unset-variable", `env("VERIF_ENV_MISSING")`},
 		{"float-argument-for-int-parameter", "obj.Add(1.5, 1)"},
 		{"helper-panics", "ppanic()"},
+		// more than a thousand levels of nesting around the failing operand
+		{"failure-1200-parentheses-deep", strings.Repeat("(", 1200) + "n1 / 0" + strings.Repeat(")", 1200)},
+		{"failure-1100-brackets-deep", strings.Repeat("[", 1100) + "xs[7]" + strings.Repeat("]", 1100)},
 		{"int-argument-for-string-parameter", "obj.Greet(65)"},
 		{"json-of-func", "json(pv)"},
 		// operations on literals only (nothing of the context enters)
@@ -2122,6 +2125,9 @@ var brokenTags = []string{
 	"<%= foo( %>",
 	"<% let q = [1, 2, %>",
 	"<%= {\"a\": 1, %>",
+	// one broken tag that sets off more than ten messages
+	"<%= 1 ))))))))))))) %>",
+	"<%= pb(0, {\"a\": 1 \"b\": 2, \"c\": 3, \"d\": 4, \"e\": 5, \"f\": 6, \"g\": 7}) { %>\nx\n<% } %>",
 	// number literals the parser cannot convert
 	"<%= 99999999999999999999 %>",
 	"<%= n1 + 18446744073709551616 %>",
